@@ -579,7 +579,7 @@ func runC28(c *Ctx) {
 		})
 	}
 	// ---- P9: slice / index bounds computed from file content (prop_r3_c28.go)
-	c28FileBounds(c, p, set)
+	nFixed := c28FileBounds(c, p, set)
 	// ---- P10: first / last position of a list produced elsewhere (prop_r4_c28.go)
 	c28ListContract(c, p, set)
 	_ = n1
@@ -588,7 +588,8 @@ func runC28(c *Ctx) {
 	c.Floor("C28.P3", n3, 3)
 	c.Floor("C28.P5", n5, 6)
 	c.Floor("C28.P6", n6, 2)
-	c.Floor("C28.P7", n7, 3)
+	// a size that positions into a fixed-size buffer instead of sizing a make is P9's instance, not a lost one
+	c.Floor("C28.P7", n7+nFixed, 3)
 	c.Floor("C28.P8", n8, 2)
 	c.Count("reachable_functions", len(set))
 	_ = fmt.Sprint
